@@ -13,7 +13,7 @@ use refimpl as r;
 use refimpl::{Mode, Poly, MODES};
 use serde_json::json;
 
-const RULE: &str = "valid tuples (pk, M, ctx, mode, sig): honest keys in all four modes, a tuple whose hint weight is within 2 of omega, a degenerate-key (t1=0) tuple with an empty hint and one whose hints all sit in the first polynomial (repeated cumulative counts, indices 0 and 255); for each tuple EVERY single-bit flip of the signature, of the serialised public key, of the message and of the context is verified and must return false (the unmutated tuple must return true). Crate results equal to `true` are cross-checked against the reference; a 1% sample of rejections is cross-checked too. Exhaustive over bit positions per tuple, not over tuples. Non-trivial = distinct (tuple, field, bit) mutants evaluated.";
+const RULE: &str = "valid tuples (pk, M, ctx, mode, sig): honest keys in all four modes, a tuple whose hint weight is within 2 of omega, a degenerate-key (t1=0) tuple with an empty hint and one whose hints all sit in the first polynomial (repeated cumulative counts, indices 0 and 255), and three with a completely full hint vector (weight exactly omega: spread, all in the last, all in the first polynomial); for each tuple EVERY single-bit flip of the signature, of the serialised public key, of the message and of the context is verified and must return false (the unmutated tuple must return true). Crate results equal to `true` are cross-checked against the reference; a 1% sample of rejections is cross-checked too. Exhaustive over bit positions per tuple, not over tuples. Non-trivial = distinct (tuple, field, bit) mutants evaluated.";
 
 struct Tuple {
     label: String,
@@ -95,7 +95,14 @@ fn tuples<S: PS>(ctx: &Ctx, acc: &mut Acc) -> Vec<Tuple> {
         h[0][j] = 1;
     }
     let sig = gen::forge_degenerate(p, &rho, &mp, &z, &h, None);
-    out.push(Tuple { label: "degenerate-key-hints-in-first-poly".into(), pk: gen::degenerate_pk(p, &rho), m, cx, mode, sig });
+    out.push(Tuple { label: "degenerate-key-hints-in-first-poly".into(), pk: gen::degenerate_pk(p, &rho), m: m.clone(), cx: cx.clone(), mode, sig });
+    // degenerate-key tuples with a completely FULL hint vector (weight exactly omega: no padding byte left, the
+    // last count byte equals omega): spread over all polynomials, all in the last polynomial, all in the first
+    for (layout, name) in [(0u64, "spread"), (1, "last-poly"), (2, "first-poly")] {
+        let h = gen::hint_with_weight(&mut g, p, p.omega, layout);
+        let sig = gen::forge_degenerate(p, &rho, &mp, &z, &h, None);
+        out.push(Tuple { label: format!("degenerate-key-full-hint-{name}"), pk: gen::degenerate_pk(p, &rho), m: m.clone(), cx: cx.clone(), mode, sig });
+    }
     out
 }
 
